@@ -133,9 +133,24 @@ def run_merge(case, ctx):
 
 
 def make_obs(rng, nv, which):
-    from qucumber.observables import SWAP, NeighbourInteraction, SigmaX, SigmaY, SigmaZ
+    from qucumber.observables import SWAP, NeighbourInteraction, ObservableBase, SigmaX, SigmaY, SigmaZ
+
+    class Occupation(ObservableBase):
+        """user-defined leaf: the occupation of one site, returned the cheapest way - as a VIEW of the sample batch"""
+
+        def __init__(self, site):
+            self.site = site
+            self.name = self.symbol = f"n{site}"
+
+        def apply(self, nn_state, samples):
+            return samples[:, self.site]
 
     pool = {
+        "occupation": lambda: Occupation(0),
+        "occ-sum": lambda: Occupation(0) + Occupation(nv - 1),
+        "occ-scaled": lambda: 2 * Occupation(nv - 1) - 1,
+        "occ-offset": lambda: Occupation(0) + 1.0,
+        "occ-neg": lambda: -Occupation(0),
         "SigmaZ": lambda: SigmaZ(), "SigmaX": lambda: SigmaX(), "SigmaY": lambda: SigmaY(),
         "absZ": lambda: SigmaZ(absolute=True),
         "ZZ": lambda: NeighbourInteraction(periodic_bcs=bool(rng.integers(0, 2)), c=1),
@@ -171,7 +186,8 @@ def run_case(case, ctx):
     if i % 13 == 0:
         num_samples = 1
     burn_in, steps = int(rng.integers(0, 5)), int(rng.integers(0, 5))
-    names = ["SigmaZ", "SigmaX", "SigmaY", "absZ", "ZZ", "SWAP", "composite", "neg", "offset", "offset2"]
+    names = ["SigmaZ", "SigmaX", "SigmaY", "absZ", "ZZ", "SWAP", "composite", "neg", "offset", "offset2",
+             "occupation", "occ-sum", "occ-scaled", "occ-offset", "occ-neg"]
     use_system = i % 3 == 0
     nobs = int(rng.integers(1, 5)) if use_system else 1
     picks = [names[j] for j in rng.choice(len(names), size=nobs, replace=False)]
